@@ -57,6 +57,30 @@ type kase struct {
 	Func    bool       `json:"reachability_func"`
 	Peers   []peerSpec `json:"peers"`
 	Queries []query    `json:"queries"`
+	// Special: 0 base derived from Seed; 1 the node's own address is the all-zero address; 2 the base
+	// is 8000..00, so that the peer {FD:0, Tag:0} is the all-zero address; 3/4 the same with all-ones
+	Special int `json:"special,omitempty"`
+}
+
+func baseOf(c kase) boson.Address {
+	b := make([]byte, 32)
+	switch c.Special {
+	case 1:
+	case 2:
+		b[0] = 0x80
+	case 3:
+		for i := range b {
+			b[i] = 0xff
+		}
+	case 4:
+		for i := range b {
+			b[i] = 0xff
+		}
+		b[0] = 0x7f
+	default:
+		return kadx.Base(c.Seed)
+	}
+	return boson.NewAddress(b)
 }
 
 type info struct {
@@ -88,7 +112,7 @@ func run(c kase) (sig string, err error, inf info) {
 			return !reachSet[a.ByteString()]
 		}
 	}
-	base := kadx.Base(c.Seed)
+	base := baseOf(c)
 	env, e := kadx.New(base, opts)
 	if e != nil {
 		return "C23/setup", e, inf
@@ -336,6 +360,11 @@ func genCase(t *rapid.T) kase {
 			Out:   rapid.Bool().Draw(t, "out"),
 			Reach: rapid.SampledFrom([]int{0, 1, 1, 1, 1, 2, 3}).Draw(t, "reach")})
 	}
+	// boundary addresses as the node's own address or as a peer (all-zero / all-ones overlays are legal)
+	c.Special = rapid.SampledFrom([]int{0, 0, 0, 0, 1, 2, 2, 3, 4}).Draw(t, "special")
+	if (c.Special == 2 || c.Special == 4) && !used[[2]int{0, 0}] {
+		c.Peers = append(c.Peers, peerSpec{FD: 0, Tag: 0, State: stConnected, Out: rapid.Bool().Draw(t, "zout"), Reach: 1})
+	}
 	nq := rapid.IntRange(1, 6).Draw(t, "nq")
 	for j := 0; j < nq; j++ {
 		var q query
@@ -438,7 +467,7 @@ func TestC23_Closest(t *testing.T) {
 	r := evid.Get(id)
 	evid.Finish(t, r)
 	t.Cleanup(kadx.Drain)
-	r.SetRule("real kademlia.Kad (never started): 0..14 peers (most in two adjacent 'hot' bins so that the decision falls inside a bin, some anywhere in bins 0..10, some up to first-difference bit 40) in state connected(inbound|outbound)/connected-then-disconnected/known-only/stranger, reachability never reported/public/private/public-then-private through the Kad's own metrics filter or Options.ReachabilityFunc; 1..6 queries each with optional UpdateReachability(unknown|public|private), target = base or a peer address with 0..3 flipped bits or 32 random bytes, skip list of 0..5 peers of any state (with repeats), Filter.Reachable, includeSelf, limit; oracle = eligible connected peers sorted by math/big XOR distance. non-trivial = some query has >= 3 eligible peers or a non-empty skip list; distinct by hash of the whole case")
+	r.SetRule("real kademlia.Kad (never started; own address derived from a seed, or all-zero / all-ones, or chosen so that one connected peer is the all-zero / all-ones address): 0..14 peers (most in two adjacent 'hot' bins so that the decision falls inside a bin, some anywhere in bins 0..10, some up to first-difference bit 40) in state connected(inbound|outbound)/connected-then-disconnected/known-only/stranger, reachability never reported/public/private/public-then-private through the Kad's own metrics filter or Options.ReachabilityFunc; 1..6 queries each with optional UpdateReachability(unknown|public|private), target = base or a peer address with 0..3 flipped bits or 32 random bytes, skip list of 0..5 peers of any state (with repeats), Filter.Reachable, includeSelf, limit; oracle = eligible connected peers sorted by math/big XOR distance. non-trivial = some query has >= 3 eligible peers or a non-empty skip list; distinct by hash of the whole case")
 
 	if os.Getenv("VERIF_SKIP_FIXED") == "" {
 		for _, c := range fixedCases() {
